@@ -223,6 +223,12 @@ def gen_grammar(rng, i):
     if i % 4 == 3:
         pg = complete.twin_gen(rng)
         return pg.text()
+    if i % 4 == 2:
+        # texts with the characters the shells' quoting rules are about
+        g = gen.Gen(rng, max_depth=rng.choice([2, 3]), p_sub=0.25, p_descr=0.5, p_cmd=0.15, p_fb=0.2,
+                    lits=["a`b", "$x", "it's", 'q"q', "b\\s", "!h", "a*b", "--opt", "foo", "${y}", "`", "x$(z)"],
+                    descrs=["same as `cmd`", "costs $5", 'say "hi"', "back\\slash", "it's", "d"])
+        return g.grammar()
     g = gen.Gen(rng, max_depth=rng.choice([2, 3, 4]), p_sub=0.3, p_descr=0.4, p_cmd=0.2, p_fb=0.2)
     return g.grammar()
 
